@@ -250,6 +250,20 @@ def case_hash(c):
     return hashlib.sha1(json.dumps(c, sort_keys=True, default=str).encode()).hexdigest()
 
 
+def safe_oracle(st, c, o):
+    try:
+        return st.oracle(c, o)
+    except Exception as e:
+        return 'oracle could not interpret the output: %s: %s' % (type(e).__name__, e)
+
+
+def safe(fn, default, *a):
+    try:
+        return fn(*a)
+    except Exception:
+        return default
+
+
 def shrink_case(stream, case, fails):
     """greedy shrinking while the failure persists"""
     if not stream.shrink:
@@ -324,15 +338,21 @@ def main(prop, tier='quick', seed=None, replay=None):
             observed = [quiet_call(st.run_impl, c) for c in cases]
             t_impl = time.time() - t_s
             terms = []; idx = []
+            malformed = []
             for i, (c, o) in enumerate(zip(cases, observed)):
-                t = st.coq_case(c, o)
+                try:
+                    t = st.coq_case(c, o)
+                except Exception:
+                    # the observation cannot even be written as a term of the model (a NaN, an infinity, a missing or ill-typed value where the
+                    # model has a number): counted as a disagreement of that case instead of crashing the run; the oracle decides whether it is a failure
+                    t = None; malformed.append(i)
                 if t is not None:
                     terms.append(t); idx.append(i)
             t_s = time.time()
             bad, errs = run_coq_cases(prop, st, terms, work) if terms else (set(), [])
             t_coq = time.time() - t_s
             lemma_out = {idx[b]: v for b, v in getattr(st, 'lemma_output', {}).items()}
-            bad = sorted(idx[b] for b in bad)
+            bad = sorted(set(idx[b] for b in bad) | set(malformed))
             coq_errors += [dict(e, stream=st.name) for e in errs]
             ofail = []
             for i, (c, o) in enumerate(zip(cases, observed)):
@@ -343,17 +363,17 @@ def main(prop, tier='quick', seed=None, replay=None):
                 if why:
                     ofail.append((i, why))
             for i, why in ofail:
-                key = st.finding_key(cases[i], observed[i], why)
+                key = safe(st.finding_key, None, cases[i], observed[i], why)
                 if key is not None and key in open_keys:
                     known_hit.setdefault(key, []).append({'stream': st.name, 'case': cases[i], 'observed': observed[i], 'why': why})
                 else:
                     new_fail.append({'stream': st.name, 'si': si, 'case': cases[i], 'observed': observed[i], 'why': why, 'in_disagreement': i in bad})
             for i in bad:
                 disagreements.append({'stream': st.name, 'si': si, 'case': cases[i], 'observed': observed[i], 'coq_output': lemma_out.get(i)})
-            nt = {case_hash(c) for c, o in zip(cases, observed) if st.nontrivial(c, o)}
+            nt = {case_hash(c) for c, o in zip(cases, observed) if safe(st.nontrivial, False, c, o)}
             dist = {}
             for c, o in zip(cases, observed):
-                k = st.klass(c, o)
+                k = safe(st.klass, 'unclassified', c, o)
                 if isinstance(o, dict) and 'exc' in o:
                     k = 'raises:' + o['exc']
                 dist[str(k)] = dist.get(str(k), 0) + 1
@@ -381,11 +401,11 @@ def main(prop, tier='quick', seed=None, replay=None):
             f0 = new_fail[0]; st = mod.STREAMS[f0['si']]
             def fails(c, st=st):
                 o = quiet_call(st.run_impl, c)
-                w = st.oracle(c, o)
-                return bool(w) and not (st.finding_key(c, o, w) in open_keys)
+                w = safe_oracle(st, c, o)
+                return bool(w) and not (safe(st.finding_key, None, c, o, w) in open_keys)
             small = shrink_case(st, f0['case'], fails)
             o = quiet_call(st.run_impl, small)
-            verdict = 'concrete'; reason = st.oracle(small, o) or f0['why']
+            verdict = 'concrete'; reason = safe_oracle(st, small, o) or f0['why']
             replay_cases = [{'stream': st.name, 'case': small, 'observed': o, 'why': reason}]
         elif disagreements or coq_errors or not proof_ok:
             # broken correspondence / proof: look harder for a concrete failing input with the oracle
@@ -402,17 +422,17 @@ def main(prop, tier='quick', seed=None, replay=None):
                         w = st.oracle(c, o)
                     except Exception as e:
                         w = 'oracle could not interpret the output: %s' % e
-                    if w and not (st.finding_key(c, o, w) in open_keys):
+                    if w and not (safe(st.finding_key, None, c, o, w) in open_keys):
                         found = (st, c, o, w); break
                 if found:
                     break
             if found:
                 st, c, o, w = found
                 def fails(c2, st=st):
-                    o2 = quiet_call(st.run_impl, c2); w2 = st.oracle(c2, o2)
-                    return bool(w2) and not (st.finding_key(c2, o2, w2) in open_keys)
+                    o2 = quiet_call(st.run_impl, c2); w2 = safe_oracle(st, c2, o2)
+                    return bool(w2) and not (safe(st.finding_key, None, c2, o2, w2) in open_keys)
                 c = shrink_case(st, c, fails); o = quiet_call(st.run_impl, c)
-                verdict = 'concrete'; reason = st.oracle(c, o) or w
+                verdict = 'concrete'; reason = safe_oracle(st, c, o) or w
                 replay_cases = [{'stream': st.name, 'case': c, 'observed': o, 'why': reason}]
             else:
                 verdict = 'no-failing-input-found'
